@@ -397,6 +397,8 @@ func mkAnno(c *core.Ctx, name string, idx int64, vs ...*eval.StructVal) *eval.St
 // callWriter interprets a channel-fed writer: parameters are bound by type.
 func callWriter(c *core.Ctx, ev *eval.Evaluator, fn *types.Func, feedType types.Type, feed []eval.Value, scalars map[string]eval.Value) (string, *eval.ChanVal, error) {
 	writes := captureWrites(ev)
+	installBufioWriter(ev)
+	doneAt := -1
 	sig := fn.Type().(*types.Signature)
 	errs := &eval.ChanVal{Name: "err"}
 	var args []eval.Value
@@ -414,7 +416,12 @@ func callWriter(c *core.Ctx, ev *eval.Evaluator, fn *types.Func, feedType types.
 			case isErrorType(t.Elem()):
 				args = append(args, errs)
 			default:
-				args = append(args, &eval.ChanVal{Name: p.Name()})
+				// a completion signal: what has been handed to the destination by then is what the caller may rely on
+				args = append(args, &eval.ChanVal{Name: p.Name(), OnSend: func(eval.Value) {
+					if doneAt < 0 {
+						doneAt = len(*writes)
+					}
+				}})
 			}
 		case *types.Interface:
 			args = append(args, eval.Opaque{Why: "writer"})
@@ -426,10 +433,102 @@ func callWriter(c *core.Ctx, ev *eval.Evaluator, fn *types.Func, feedType types.
 		return "", errs, err
 	}
 	var sb strings.Builder
-	for _, w := range *writes {
+	for i, w := range *writes {
+		if doneAt >= 0 && i >= doneAt {
+			// handed to the destination only after the writer said it was done (a deferred flush behind the completion
+			// signal): the caller closes the file and returns on that signal, so these bytes are not part of the output
+			c.Note("%s: %d write(s) reach the destination after the completion signal was sent; they are not counted as output", fn.Name(), len(*writes)-doneAt)
+			break
+		}
 		sb.WriteString(w.String())
 	}
 	return sb.String(), errs, nil
+}
+
+// bufioWriterModel: bufio.Writer as a buffer that reaches the underlying writer at Flush (or when it is full: 4096
+// bytes by default).
+type bufioWriterModel struct {
+	under eval.Value
+	size  int
+	data  []byte
+}
+
+func installBufioWriter(ev *eval.Evaluator) {
+	flush := func(ev *eval.Evaluator, pos token.Pos, m *bufioWriterModel) {
+		if len(m.data) == 0 {
+			return
+		}
+		w, ok := ev.Extern["(io.Writer).Write"]
+		if !ok {
+			ev.Failf(pos, "bufio.Writer over an unmodelled destination")
+		}
+		w(ev, pos, m.under, []eval.Value{eval.BytesOf{S: eval.S(string(m.data))}})
+		m.data = nil
+	}
+	mk := func(ev *eval.Evaluator, pos token.Pos, recv eval.Value, args []eval.Value) eval.Value {
+		m := &bufioWriterModel{under: args[0], size: 4096}
+		if len(args) > 1 {
+			if n, ok := linConst(args[1]); ok && n > 0 {
+				m.size = int(n)
+			}
+		}
+		return &eval.Ref{Get: func() eval.Value { return m }, Set: func(eval.Value) {}}
+	}
+	ev.Extern["bufio.NewWriter"] = mk
+	ev.Extern["bufio.NewWriterSize"] = mk
+	add := func(ev *eval.Evaluator, pos token.Pos, recv eval.Value, b []byte) {
+		m, ok := unref(recv).(*bufioWriterModel)
+		if !ok {
+			ev.Failf(pos, "method of an unknown bufio.Writer")
+		}
+		m.data = append(m.data, b...)
+		for len(m.data) >= m.size { // the library writes full buffers through
+			chunk := m.data[:m.size]
+			rest := append([]byte{}, m.data[m.size:]...)
+			m.data = chunk
+			flush(ev, pos, m)
+			m.data = rest
+		}
+	}
+	ev.Extern["(*bufio.Writer).Write"] = func(ev *eval.Evaluator, pos token.Pos, recv eval.Value, args []eval.Value) eval.Value {
+		var b []byte
+		switch x := args[0].(type) {
+		case eval.BytesOf:
+			if !x.S.IsConst() {
+				ev.Failf(pos, "bufio.Writer.Write of symbolic text")
+			}
+			b = []byte(x.S.Const())
+		case eval.Slice:
+			s, _ := bytesStr(x)
+			b = []byte(s)
+		}
+		add(ev, pos, recv, b)
+		return eval.Tuple{eval.K(int64(len(b))), eval.Nil{}}
+	}
+	ev.Extern["(*bufio.Writer).WriteString"] = func(ev *eval.Evaluator, pos token.Pos, recv eval.Value, args []eval.Value) eval.Value {
+		s, ok := args[0].(eval.Str)
+		if !ok || !s.IsConst() {
+			ev.Failf(pos, "bufio.Writer.WriteString of symbolic text")
+		}
+		add(ev, pos, recv, []byte(s.Const()))
+		return eval.Tuple{eval.K(int64(len(s.Const()))), eval.Nil{}}
+	}
+	ev.Extern["(*bufio.Writer).WriteByte"] = func(ev *eval.Evaluator, pos token.Pos, recv eval.Value, args []eval.Value) eval.Value {
+		n, ok := linConst(args[0])
+		if !ok {
+			ev.Failf(pos, "bufio.Writer.WriteByte of a symbolic byte")
+		}
+		add(ev, pos, recv, []byte{byte(n)})
+		return eval.Nil{}
+	}
+	ev.Extern["(*bufio.Writer).Flush"] = func(ev *eval.Evaluator, pos token.Pos, recv eval.Value, args []eval.Value) eval.Value {
+		m, ok := unref(recv).(*bufioWriterModel)
+		if !ok {
+			ev.Failf(pos, "Flush of an unknown bufio.Writer")
+		}
+		flush(ev, pos, m)
+		return eval.Nil{}
+	}
 }
 
 func evalAggregateVariants(c *core.Ctx, reverse bool, feed []eval.Value, start, end int64, appendSNP bool, thr float64, refID string) (string, error) {
@@ -683,6 +782,31 @@ func checkMapRanges(c *core.Ctx, rule string, pkgs ...string) {
 					pkgRel := map[string]string{"sam": "pkg/sam", "variants": "pkg/variants", "snps": "pkg/snps", "updown": "pkg/updown"}[ref[:i]]
 					if ref[:i] == pkgName && currentName(c, pkgRel, ref[i+1:]) == mr.fn.Name.Name {
 						h, ok = hh, true
+					}
+				}
+			}
+			if !ok {
+				// a helper of a routine that has a harness (the iteration moved into a function of its own): the harness of the
+				// caller interprets the helper too, under both iteration orders
+				if f := c.SSAFunc(mr.pkg, mr.fn.Name.Name); f != nil {
+					seenF := map[*ssa.Function]bool{f: true}
+					frontier := []*ssa.Function{f}
+					for depth := 0; depth < 3 && !ok; depth++ {
+						var next []*ssa.Function
+						for _, g := range frontier {
+							for _, site := range facts(c).callers[g] {
+								caller := topFunc(site.Parent())
+								if caller == nil || seenF[caller] || caller.Pkg != f.Pkg {
+									continue
+								}
+								seenF[caller] = true
+								next = append(next, caller)
+								if hh, has := mapHarness[pkgName+"."+caller.Name()]; has && !ok {
+									h, ok = hh, true
+								}
+							}
+						}
+						frontier = next
 					}
 				}
 			}
